@@ -66,6 +66,11 @@ CHECKS = {
                   "Tie: structures with bonds from SSBOND records, add_bond and connect_atoms x {clone, serde value round trip, second read} x later edits: equality, full snapshot, bonds as position pairs (model computes the clone's resolved bonds from the identities and bond table seen through serde); 1-16 threads creating and cloning atoms concurrently.",
              note="Atomicity of fetch_add (std::sync::atomic) is assumed; real threads are exercised, schedules not enumerated. A deserialised copy keeps the stored identities (not 'created or cloned'): outside the statement. Hierarchy/field equality of copies is plain data equality.",
              technique="Lean 4 theorems over an identity/bond-table model (all schedules) + differential correspondence + concurrent stress", ref="DESIGN §7 C16"),
+ 'C01': dict(text="Model: the whole fixed-column reader (lexer of 20 record types with byte/char slicing and Rust's number grammars, parser state machine with serial wrap, ANISOU attachment, chain letters, MODEL/MASTER handling, database references, matrices, reshuffle of shared atoms, remark merging, modifications, SSBOND, validation, gate) in Lean. "
+                  "Theorems: a field without diagnostic is exactly the parsed text of its columns; a missing/unparsable field yields an InvalidatingError anchored to its line; a returned structure carries no diagnostic that fails the level, hence no InvalidatingError, hence no defaulted numeric field. "
+                  "Tie: generated well-formed documents (metadata in legal order, 1-3 models, interleaved/blank chain ids with TER, negative and inserted residue numbers, mixed case, partial and full altlocs, ANISOU, DBREF/SEQADV/MODRES, random justification, CRLF) x levels, compared on the full canonical dump (hierarchy, every atom field, metadata, bonds, diagnostics with line numbers); every single-field corruption (blank, garbage, truncation) of numeric ATOM fields; a 100 050-atom wrap document. Oracle: independent column-slicing reference reader.",
+             note="PARTIAL: the grouping / wrap / occupancy-sum statements are decided by the correspondence and the independent reference reader, not yet by theorems. SEQRES validation is not modelled (inputs with SEQRES are compared on totality only). Float parsing of texts with more than 6 decimals is compared by outcome class only.",
+             technique="Lean 4 model of the reader + theorems on field exactness and the gate + differential correspondence + independent reference reader", ref="DESIGN §7 C01"),
 }
 NOT_APPLICABLE = {}
 ALL = ['C%02d' % i for i in range(1, 19)]
